@@ -164,6 +164,9 @@ class ktensor:
                 "Each item in 'factor_matrices' must be a numpy.ndarray object with "
                 "dtype=float."
             )
+        # each factor matrix is a matrix
+        if not all(fm.ndim == 2 for fm in factor_matrices):  # noqa: PLR2004
+            assert False, "Each item in 'factor_matrices' must be a 2-D array."
         # the number of columns of all factor_matrices must be equal
         num_components = factor_matrices[0].shape[1]
         if not all(fm.shape[1] == num_components for fm in factor_matrices):
